@@ -38,8 +38,9 @@ def main():
         for i, (k, r, cl, vv) in enumerate(factors[:n_conf]):
             c = SHIFTS[(i + rep) % len(SHIFTS)] if ck.tier == "quick" else None
             for cc in ([c] if c is not None else SHIFTS):
-                cases.append((dict(sample=k, resample=r, clustering=cl, volume_variation=vv, quant=20, n_particles=16 if (i % 5 == 4) else 8,
-                                   support=0.5 if (i % 5 == 4) else None, nan_pocket=0.012 if (i % 7 == 3) else None), cc, 1000 * rep + i))
+                extra = dict(target="narrow", nan_pocket=0.03, n_particles=16) if (i % 7 == 3) else {}   # NaN pocket at a narrow mode: reached by proposals, not by prior draws
+                cases.append((dict(dict(sample=k, resample=r, clustering=cl, volume_variation=vv, quant=20, n_particles=16 if (i % 5 == 4) else 8,
+                                   support=0.5 if (i % 5 == 4) else None, nan_pocket=None), **extra), cc, 1000 * rep + i))
     violations_seen = 0
     inconclusive = 0
     discarded = 0
